@@ -1,6 +1,7 @@
 package vanguard
 
 import (
+	"io"
 	"net/http"
 	"net/url"
 	"strconv"
@@ -319,6 +320,7 @@ type respScript struct {
 	respHdrs     http.Header
 	announce     bool // gRPC trailers announced via "Trailer" header instead of http.TrailerPrefix
 	announceLow  bool // ... with lower-case names in the Trailer header
+	announceLine bool // ... all names in one comma-separated Trailer header line ("A, B, C")
 }
 
 type pipeBackend struct {
@@ -331,6 +333,9 @@ type pipeBackend struct {
 	skipRead bool
 	// closeBody: the handler closes the request body when it is done with it (as connect-go and grpc-go do)
 	closeBody bool
+	// readFirst > 0: a full-duplex handler: it reads only this many bytes of the request, writes its whole
+	// response, and reads the rest of the request afterwards
+	readFirst int
 }
 
 // write modes (segmentation of the backend's response body)
@@ -449,11 +454,31 @@ func (b *pipeBackend) ServeHTTP(w http.ResponseWriter, r *http.Request) {
 	rec.contentLen = r.ContentLength
 	rec.ctx = r.Context()
 	rec.writer = w
-	if !b.skipRead {
-		rec.body, rec.readErr = readAllSized(r.Body, b.bufSize, 200)
-	}
-	if b.closeBody {
-		r.Body.Close()
+	if !b.skipRead && b.readFirst > 0 {
+		first := make([]byte, b.readFirst)
+		n, err := r.Body.Read(first)
+		rec.body = append(rec.body, first[:n]...)
+		if err != nil && err != io.EOF {
+			rec.readErr = err
+		}
+		late := err == nil
+		defer func() {
+			if late {
+				rest, err := readAllSized(r.Body, b.bufSize, 200)
+				rec.body = append(rec.body, rest...)
+				rec.readErr = err
+			}
+			if b.closeBody {
+				r.Body.Close()
+			}
+		}()
+	} else {
+		if !b.skipRead {
+			rec.body, rec.readErr = readAllSized(r.Body, b.bufSize, 200)
+		}
+		if b.closeBody {
+			r.Body.Close()
+		}
 	}
 	s := b.script
 	if s == nil {
@@ -496,13 +521,19 @@ func (b *pipeBackend) ServeHTTP(w http.ResponseWriter, r *http.Request) {
 		return
 	}
 	if b.target == ProtocolGRPC && s.announce {
-		h.Add("Trailer", "Grpc-Status")
-		h.Add("Trailer", "Grpc-Message")
+		names := []string{"Grpc-Status", "Grpc-Message"}
 		for _, k := range sortedHeaderKeys(s.trailerHdrs) {
 			if s.announceLow {
 				k = strings.ToLower(k)
 			}
-			h.Add("Trailer", k)
+			names = append(names, k)
+		}
+		if s.announceLine {
+			h.Set("Trailer", strings.Join(names, ", "))
+		} else {
+			for _, k := range names {
+				h.Add("Trailer", k)
+			}
 		}
 	}
 	if !s.noHead {
